@@ -226,7 +226,7 @@ def gen_case(rng, widen=False):
 
 
 def gen_cases(ctx):
-    return [gen_case(ctx.rng, ctx.widen) for _ in range(ctx.budget(160, 9000))]
+    return [gen_case(ctx.rng, ctx.widen) for _ in range(ctx.budget(400, 4000))]
 
 
 def shrink_candidates(case):
@@ -898,7 +898,8 @@ def check_cases(ctx, cases):
         rep.count("n_envs=%d" % case["n_envs"])
         rep.count("n_steps=%d" % case["n_steps"])
         rep.count("vecnorm:" + ("none" if case["vecnorm"] is None else
-                                ("obs" if case["vecnorm"]["norm_obs"] else "") + ("+rew" if case["vecnorm"]["norm_reward"] else "")))
+                                (("obs" if case["vecnorm"]["norm_obs"] else "") +
+                                 ("+rew" if case["vecnorm"]["norm_reward"] else "")) or "wrapper-only"))
         rep.count("sde:" + ("none" if case["sde"] is None else ("squash" if case["sde"]["squash"] else "plain")))
         rep.count("learn_calls=%d" % len(case["learns"]))
         if r is None:
